@@ -889,3 +889,13 @@ func specIntWidths(a int, b uint, c uintptr, d byte, e float32) bool {
 		oa == Object(Int(a)) && ob == Object(Uint(b)) && oc == Object(Uint(c)) && od == Object(Char(d)) &&
 		specSameScalar(oe, Float(float64(e)))
 }
+
+// ---------------------------------------------------------------------------
+// Builtins (C19)
+
+// specArgsOK: what the VM passes to a builtin: non-nil objects.
+func specObjsOK(a []Object) bool {
+	return verifrt.Forall(func(i int) bool { return !(0 <= i && i < len(a)) || a[i] != nil })
+}
+
+func specCallOK(c Call) bool { return specObjsOK(c.args) && specObjsOK(c.vargs) }
